@@ -67,7 +67,7 @@ PROPS = {
               "documents and alias/duplicate-key/tag-mismatch templates and their mutants; a tee receiver logs the very events the loader was given and an "
               "independent fold of that log is compared with the loaded documents; non-trivial = accepted input with at least one collection; distinct = distinct input texts"),
         builds=[('rel', 1.0, 1.0)],
-        must_observe=['accepted_inputs', 'rejected_inputs', 'documents_compared', 'h4_events', 'documents_with_aliases', 'documents_with_duplicate_keys'],
+        must_observe=['accepted_inputs', 'rejected_inputs', 'documents_compared', 'scalar_values_checked', 'h4_events', 'documents_with_aliases', 'documents_with_duplicate_keys'],
         assumptions=COMMON_ASSUME + ["scalar resolution uses the library's own value_from_cow_and_metadata (resolution is C08's subject)",
                                      "for a repeated key the position of either its first or its last occurrence is accepted"]),
     'C19': dict(
@@ -95,7 +95,7 @@ PROPS = {
         rule=("random JSON values (nesting mostly <= 6, some 40..200; unique keys; hostile strings as keys and values; numbers in all JSON spellings incl. "
               "19-20 digit integers) serialised compact, pretty-printed (2/4 spaces, tabs) or with random insignificant whitespace (space, tab, LF, CR) around "
               "every token; the generating value is the oracle; non-trivial = the value has at least one container; distinct = distinct JSON texts"),
-        builds=[('rel', 1.0, 1.0)], must_observe=['json_texts_matching', 'style_compact', 'style_pretty-tab', 'style_random-ws', 'deeply_nested_values'],
+        builds=[('rel', 1.0, 1.0)], must_observe=['json_texts_matching', 'json_texts_matching_through_string_backend', 'style_compact', 'style_pretty-tab', 'style_random-ws', 'deeply_nested_values'],
         assumptions=COMMON_ASSUME + ["\\u escapes are generated only for non-surrogate code points; astral characters are written raw", "integers beyond 64 bits are expected as floats of the same value"]),
     'C20': dict(
         rule=("constructed (borrowed and owned strings) and loaded mappings with string, integer, float, null, boolean and collection keys, including non-string keys "
@@ -137,26 +137,26 @@ PROPS = {
 }
 
 TECH = {
-    'C01': ('panic capture, counting-input work bound, node-count bound on the loaded tree (alias amplification inputs), H2 scanner-progress hook, contract-checking inputs, chk (overflow/debug-assert) build, process-exit observer', '3 C01'),
+    'C01': ('panic capture, counting-input work bound, node-count bound on the loaded tree (alias amplification inputs), H2 scanner-progress hook, contract-checking inputs, chk (overflow/debug-assert) build, process-exit observer; thorough tier: Miri and AddressSanitizer passes over the same monitor', '3 C01'),
     'C02': ('online pushdown trace checker of the event grammar + anchor table, pull and push', '3 C02'),
     'C03': ('reference-model oracle: spec-derived renderer of random abstract trees, differential against delivered events; yaml-test-suite variants', '3 C03'),
     'C04': ('presentation generated from the target string (value known by construction), independent fold/unescape inverse as oracle self-test', '3 C04'),
     'C05': ('reference function block_value() from YAML 1.2.2 8.1 vs delivered block scalar value', '3 C05'),
     'C06': ('fault injection into well-formed streams by 14 spec-derived damage operators (with scalar-continuation and tab-after-blanks variants); oracle: an Err must be observed', '3 C06'),
-    'C07': ('tee receiver logging the events given to the real loader + independent fold of the log; H4 loader-stack hook', '3 C07'),
+    'C07': ('tee receiver logging the events given to the real loader + independent fold of the log; the resolved value of every scalar held against the core-schema reference functions; H4 loader-stack hook; thorough tier: AddressSanitizer pass', '3 C07'),
     'C08': ('exhaustive small-scope enumeration against hand-written recognisers of the core schema regular expressions; the same text in documents of five styles, eager and deferred, four node types; core tags in other handle/suffix splits', '3 C08'),
-    'C09': ('round-trip monitor: dump -> load -> compare -> dump again over generated value trees, exhaustive strings up to length L', '3 C09'),
-    'C10': ('differential monitor over 8 input back-ends incl. contract-checking inputs at other buffer capacities', '3 C10'),
-    'C11': ('child-process exit-status observer per nesting scenario (8 MiB and 1 MiB stacks) + stack-depth probe inside library callbacks + low-depth sweep under catch_unwind', '3 C11'),
+    'C09': ('round-trip monitor: dump -> load -> compare -> dump again over generated value trees, exhaustive strings up to length L, reload through both input back-ends; thorough tier: AddressSanitizer pass', '3 C09'),
+    'C10': ('differential monitor over 8 input back-ends incl. contract-checking inputs at other buffer capacities; thorough tier: Miri and AddressSanitizer passes', '3 C10'),
+    'C11': ('child-process exit-status observer per nesting scenario (8 MiB and 1 MiB stacks) + stack-depth probe inside library callbacks + low-depth sweep under catch_unwind; APIs incl. deferred load + parse_representation_recursive', '3 C11'),
     'C12': ('independent recount of line/column from the input, span nesting and scalar-text rules, tee-logged spans vs marked nodes', '3 C12'),
-    'C13': ('generated JSON value is the oracle; serialisers with random insignificant whitespace', '3 C13'),
+    'C13': ('generated JSON value is the oracle; serialisers with random insignificant whitespace; every text loaded through both the buffered-iterator and the string back-end', '3 C13'),
     'C14': ('metamorphic differential: LF vs CRLF vs CR variants of the same input', '3 C14'),
     'C15': ('metamorphic differential: documents of A and B alone vs A ... B joined; H3 scanner-state hook at document markers', '3 C15'),
     'C16': ('reference model of tag resolution (the property sentence executed literally) over generated directive sets, with injected faults', '3 C16'),
-    'C17': ('call-history checker: exhaustive / random peek-next histories against plain iteration (continuing past a peeked error); push vs pull differential incl. the span-less receiver; mixed next/peek/load histories and what follows the end of the stream', '3 C17'),
-    'C18': ('H1 decode-loop progress hook (aborts a spin), differential decode-vs-direct-load over 6 encodings, trap-behaviour oracle incl. the configured outcome (dropped / U+FFFD / callback output) for damaged UTF-8', '3 C18'),
-    'C19': ('differential over 4 node types and deferred-vs-eager resolution through canonical trees', '3 C19'),
-    'C20': ('differential of 6 lookup paths against a linear-scan reference; Eq => Hash monitor', '3 C20'),
+    'C17': ('call-history checker: exhaustive / random peek-next histories against plain iteration (continuing past a peeked error); push vs pull differential incl. the span-less receiver; mixed next/peek/load histories and what follows the end of the stream; thorough tier: AddressSanitizer pass', '3 C17'),
+    'C18': ('H1 decode-loop progress hook (aborts a spin), differential decode-vs-direct-load over 6 encodings, trap-behaviour oracle incl. the configured outcome (dropped / U+FFFD / callback output) for damaged UTF-8; thorough tier: Miri and AddressSanitizer passes', '3 C18'),
+    'C19': ('differential over 4 node types and deferred-vs-eager resolution through canonical trees; thorough tier: Miri and AddressSanitizer passes', '3 C19'),
+    'C20': ('differential of 6 lookup paths against a linear-scan reference; Eq => Hash monitor; thorough tier: Miri and AddressSanitizer passes', '3 C20'),
 }
 for k, (t, ref) in TECH.items():
     if k in PROPS:
